@@ -12,7 +12,7 @@ META = {
     'bounds': {'quick': 'crossings: n in 1..7, keep_adj_zeros in {F,T}, tol in {0, symbolic in (0,1000]}; switched '
                         'peaks: n in 2..5, tol in {0, symbolic positive (n<=4)}; every real value in [-1000,1000]',
                'thorough': 'crossings n<=9; switched peaks n<=7 (tol=0), n<=6 (tol>0)'},
-    'outside': ['NaN/inf inputs', 'floating-point underflow of the product sign test (real-arithmetic model)',
+    'outside': ['NaN/inf inputs', 'floating point beyond the Float64 lemma for crossings (n=2,3)',
                 'series longer than the bound', 'negative tol (raises NotImplemented by design)'],
     'assumptions': [],
 }
@@ -88,7 +88,20 @@ def switched(ctx, n, tol=False, via_object=False, split=None):
         ctx.claim('tol_subsequence', set(st) <= set(sp) and sorted(st) == st and len(set(st)) == len(st), (sp, st))
 
 
-SCENARIOS = {'crossings': crossings, 'switched': switched}
+def crossings_fp(ctx, n=3):
+    """floating-point lemma: zero crossings on IEEE-754 binary64 values; oracle uses comparisons only."""
+    pc = ctx.lib.fns.peaks_and_crossings
+    x = ctx.fparr('x', n)
+    zc = [int(i) for i in pc.get_zero_crossings_array_indices(x)]
+    ctx.observe('zc', zc)
+    spec = []
+    for i in range(1, n):
+        want = S.sym_or(S.sym_and(x[i] == 0.0, x[i - 1] != 0.0), _sign_change(x[i - 1], x[i]))
+        spec.append(want if i in zc else S.sym_not(want))
+    ctx.claim('fp_crossings_exact', S.sym_and(0 in zc, *spec), zc)
+
+
+SCENARIOS = {'crossings': crossings, 'switched': switched, 'crossings_fp': crossings_fp}
 
 
 def obligations(tier, seed):
@@ -122,3 +135,5 @@ def obligations(tier, seed):
         else:
             yield Ob('switched', {'n': n, 'tol': True}, timeout_s=1500)
     yield Ob('switched', {'n': 4, 'via_object': True})
+    yield Ob('crossings_fp', {'n': 2}, query_ms=120000, timeout_s=1500)
+    yield Ob('crossings_fp', {'n': 3}, query_ms=120000, timeout_s=1500)
